@@ -220,7 +220,12 @@ def sortNat (l : List Nat) : List Nat := l.mergeSort (fun a b => a ≤ b)
 def showSender (n : Nat) (s : Sender) : String :=
   let q := if s.q.queue.isEmpty then "-" else ",".intercalate ((sortNat s.q.queue).map toString)
   let exited := s.loop == .exitedStop || s.loop == .exitedShutdown
-  s!"tok={s.tokens} exit={boolTok exited} q={q} pend={showCMap n s.q.pending} proc={showCMap n s.q.processing} down={boolTok s.q.down}"
+  -- once the server is stopping / the queue shutting down, which re-queued mail is still picked up
+  -- depends on the order in which parked pushes take their exits: not compared
+  if s.stopped || s.q.down then
+    s!"tok={s.tokens} exit={boolTok exited} q=* pend=* proc={showCMap n s.q.processing} down={boolTok s.q.down}"
+  else
+    s!"tok={s.tokens} exit={boolTok exited} q={q} pend={showCMap n s.q.pending} proc={showCMap n s.q.processing} down={boolTok s.q.down}"
 
 def settleIf (b : Bool) (s : Sender) : Sender := if b then settle 100000 s else s
 
